@@ -72,7 +72,7 @@ def make_msgs(spec):
             m = DeviceWatchdogRequest()
             m.origin_host = b"node.example.org"
             m.origin_realm = b"example.org"
-            m.origin_state_id = 7 + i if kind in ("ok", "bad2") else "not-an-integer"
+            m.origin_state_id = 7 + i if kind in ("ok", "bad2", "badhdr") else "not-an-integer"
             if kind == "bad2":
                 # fails while it is being packed, after its first AVPs have been packed: an AVP code that does not fit 32 bits
                 from diameter.message.avp import Avp
@@ -81,6 +81,9 @@ def make_msgs(spec):
                 m.append_avp(broken)
         m.header.hop_by_hop_identifier = 0x100 + i
         m.header.end_to_end_identifier = 0x200 + i
+        if kind == "badhdr":
+            m.origin_state_id = 7 + i
+            m.header.hop_by_hop_identifier = 2.5        # unencodable because of a header field, not of an AVP
         out.append(m)
     return out
 
@@ -99,6 +102,9 @@ def execute(cfg, prefix):
         if conn is None or conn.state != 0x12:
             raise sk.HarnessError("set-up: connection not ready")
         base = len(s.fs.sent)
+        if "pin" in plan:
+            s.fs.pin_during_send = True     # other threads may run while send() holds the caller's buffer
+            plan = tuple(x for x in plan if x != "pin")
         with_dpr = "DPR" in spec
         msgs = make_msgs(tuple(k for k in spec if k != "DPR"))
         for name in plan:
@@ -302,6 +308,10 @@ def configs(tier):
     out.append(((("ok", "bad", "ok"), 1, ()), 2))
     out.append(((("ok", "ok", "ok"), 1, ()), 2))
     out.append(((("ok", "bad2", "ok", "ok"), 1, ()), 1))
+    out.append(((("ok", "badhdr", "ok"), 1, ()), 1))
+    out.append(((("ok", "ok"), 1, ("pin",)), 2))
+    out.append(((("ok", "ok", "ok"), 1, ("pin", "half")), 1))
+    out.append(((("badhdr", "ok"), 2, ("half",)), 0))
     out.append(((("ok", "ok", "DPR"), 1, ()), 1))
     out.append(((("ok", "ok", "DPR"), 2, ("half",)), 1))
     out.append(((("bad2", "ok"), 2, ("half",)), 1))
